@@ -60,6 +60,9 @@ def check(run, prog, tier):
     run.rule("C04-B9", "the system-bath operators (plain arrays given in the site basis) are combined with basis-managed data only "
                        "where the basis in force is established", minimum=6)
     rule_B9(run, prog)
+    run.rule("C04-B14", "what is assigned to a basis-managed attribute is computed from managed reads (no raw storage of managed "
+                        "attributes in the same method)", minimum=15)
+    rule_B14(run, prog)
     run.rule("C04-B13", "the stack of basis ids and the stack of transformation matrices are pushed and popped together", minimum=3)
     rule_B13(run, prog)
     run.rule("C04-B12", "arithmetic between basis-managed objects reads the other operand through its managed property", minimum=2)
@@ -747,6 +750,45 @@ def rule_B5(run, prog):
 
 MANAGED_FACTORIES = ("BasisManagedRealArray", "BasisManagedComplexArray", "basis_managed_array_property",
                      "ManagedRealArray", "ManagedComplexArray", "managed_array_property")
+
+
+def rule_B14(run, prog, rid="C04-B14", floor=15):
+    """Basis management is lazy: an object is brought to the current basis when one of its managed properties is read or
+    assigned.  A method that assigns a managed property (`self.data = RR`) therefore labels what it stores with the
+    current basis; what it stores must have been computed from values in that basis, i.e. from managed reads.  A raw
+    read of the storage behind a managed attribute (`self._Km`) in the same method takes the numbers of whatever basis
+    the object was last used in: if the method is the first access to the object inside a context, a site-basis result is
+    stored as eigenbasis data (and transformed once more when the context is left).  In every method but the
+    constructors of the classes with basis-managed attributes, a store to a managed attribute is not combined with a raw
+    read of managed storage."""
+    from .c01 import _managed_attrs
+    bm = prog.cls("quantarhei.core.managers.BasisManaged")
+    n = 0
+    for cls in prog.all_classes():
+        if ".tests." in cls.qualname or bm not in [x for x in prog.mro(cls) if x is not None]:
+            continue
+        man = _managed_attrs(prog, cls)
+        if not man:
+            continue
+        for nme, f in cls.methods.items():
+            if nme in ("__init__", "transform", "__setstate__"):
+                continue
+            wr = [x for x in walk_no_nested(f.node) if isinstance(x, ast.Attribute) and norm(x.value) == "self" and x.attr in man
+                  and isinstance(x.ctx, ast.Store)]
+            if not wr:
+                continue
+            n += 1
+            prog.consulted.add(f.relpath)
+            raw = [x for x in walk_no_nested(f.node) if isinstance(x, ast.Attribute) and norm(x.value) == "self" and x.attr.startswith("_")
+                   and x.attr[1:] in man and isinstance(x.ctx, ast.Load)]
+            run.obligation(rid, f.short, not raw, key="managed-store-from-managed-reads",
+                           message="%s assigns the managed attribute self.%s and reads the raw storage self.%s on the way: the raw array "
+                                   "is the object's representation in the basis it was last used in, the assignment labels the result "
+                                   "with the current one - called as the first access to the object inside a basis context, it stores a "
+                                   "site-basis result as data of the context's basis" % (f.short, wr[0].attr, raw[0].attr if raw else ""),
+                           loc=f.loc(raw[0]) if raw else f.loc(f.node), sample={"stores": sorted({x.attr for x in wr})})
+    if n < floor:
+        raise AnalysisError("%s: only %d methods assign a basis-managed attribute (%d confirmed)" % (rid, n, floor))
 
 
 def rule_B13(run, prog):
